@@ -15,6 +15,8 @@
 //!         `prev_block_id` (the `sender_block_id` half of the frame tag).
 //! ops:    `i <source replica> <value>`, `j <source replica> <value>` (right input of `join`),
 //!         `stall <ms>` (shuffle/group on >= 2 hosts)
+//!         `quiet <ms>`: every source replica pauses for <ms> after half of its items, so that the TCP
+//!         links carry nothing for that long while the job is still running, and are then used again
 //! outputs (sorted by pair; `|` separates batches):
 //!         `sent <p> <c> <elem>* (| <elem>*)*`   what producer p handed to the link towards c
 //!         `recv <p> <c> <kind>* (| <kind>*)*`   what consumer c took out of its channel from p
@@ -168,6 +170,19 @@ fn gen(rng: &mut Rng, i: usize) -> Case {
     if i % 10 == 7 {
         return gen_muxstress(rng, i);
     }
+    if i % 20 == 11 {
+        // short pauses under adaptive batching: an element arrives at a batcher that still holds earlier
+        // ones long after its last flush (many x max_delay = 1 ms); per-pair order must not depend on it
+        let mut c = gen_quiet(rng, i, 30);
+        c.header[3] = "A".into();
+        c.header[4] = rng.range(3, 8).to_string();
+        return c;
+    }
+    if i == 1 || i % 160 == 81 {
+        // an idle link: nothing is sent for 11 s (31 s further on in long runs), then the link is used again
+        let ms = if i == 1 { 11_000 } else { *rng.pick(&[11_000u64, 31_000]) };
+        return gen_quiet(rng, i, ms);
+    }
     let hosts = if i % 7 == 5 { 3 } else if i % 3 == 2 { 2 } else { 1 };
     let cores = rng.range(1, 3);
     let (mode, n) = match rng.below(4) {
@@ -224,7 +239,24 @@ fn gen_stall(rng: &mut Rng, i: usize, stall_ms: u64) -> Case {
     c
 }
 
+/// A link that stays silent for a long time in the middle of a job (a bursty source, a selective filter,
+/// a window that fires rarely) must still deliver everything sent afterwards.
+fn gen_quiet(rng: &mut Rng, i: usize, quiet_ms: u64) -> Case {
+    let (mode, n) = if rng.chance(1, 2) { ("S", 1) } else { ("F", rng.range(1, 3)) };
+    let kind = if rng.chance(1, 2) { "shuffle" } else { "group" };
+    let cores = rng.range(1, 2);
+    let mut c = Case::new(&["links", "2", &cores.to_string(), mode, &n.to_string(), kind, "0"]);
+    c.ops(vec!["quiet".into(), quiet_ms.to_string()]);
+    let count = rng.range(40, 80);
+    for k in 0..count {
+        c.ops(vec!["i".into(), rng.below(2 * cores as u64).to_string(), (i as i64 * 1000 + k).to_string()]);
+    }
+    c
+}
+
 struct Cfg {
+    /// pause of every source replica after half of its items (ms)
+    quiet: u64,
     mode: BatchMode,
     kind: String,
     ts: bool,
@@ -299,7 +331,7 @@ where
     }
 }
 
-fn source(env: &StreamContext, items: Arc<Vec<(u64, i64)>>) -> Stream<impl Operator<Out = (i64, i64)>> {
+fn source(env: &StreamContext, items: Arc<Vec<(u64, i64)>>, quiet: u64) -> Stream<impl Operator<Out = (i64, i64)>> {
     env.stream_par_iter(move |id: u64, peers: u64| {
         let mine: Vec<(i64, i64)> = items
             .iter()
@@ -307,16 +339,22 @@ fn source(env: &StreamContext, items: Arc<Vec<(u64, i64)>>) -> Stream<impl Opera
             .enumerate()
             .map(|(seq, (_, v))| (seq as i64, *v))
             .collect();
-        mine.into_iter()
+        let half = mine.len() / 2;
+        mine.into_iter().enumerate().map(move |(k, x)| {
+            if quiet > 0 && k == half {
+                std::thread::sleep(Duration::from_millis(quiet));
+            }
+            x
+        })
     })
 }
 
 fn build(env: &StreamContext, cfg: &Cfg) {
-    let src = source(env, cfg.items.clone());
+    let src = source(env, cfg.items.clone(), cfg.quiet);
     if cfg.kind == "join" {
         // two upstream blocks, both hash-partitioned (all-to-all) into the same consumer block
         let a = stamp(src).batch_mode(cfg.mode);
-        let b = stamp(source(env, cfg.items_b.clone())).batch_mode(cfg.mode);
+        let b = stamp(source(env, cfg.items_b.clone(), 0)).batch_mode(cfg.mode);
         a.join(b, key, key).for_each(|(_k, (l, r))| {
             let me = replica_coord().expect("sink outside a worker");
             JOINED.lock().unwrap().push((me, format!("({},{})", fmt_payload(&l), fmt_payload(&r))));
@@ -366,7 +404,7 @@ fn run_job(hosts: u64, cores: u64, cfg: Cfg) -> Result<(), String> {
         });
     }
     for _ in 0..n {
-        match rx.recv_timeout(Duration::from_secs(30)) {
+        match rx.recv_timeout(Duration::from_millis(30_000 + 2 * cfg.quiet)) {
             Ok(true) => {}
             Ok(false) => return Err("panic:engine".into()),
             Err(_) => return Err("panic:timeout".into()),
@@ -406,7 +444,15 @@ fn exec(c: &Case) -> Vec<String> {
         .filter(|_| hosts >= 2 && (kind == "shuffle" || kind == "group"))
         .map(|ms| (hosts - 1, ms));
     STALLED.store(false, Ordering::SeqCst);
+    let quiet = c
+        .ops
+        .iter()
+        .find(|op| op[0] == "quiet" && op.len() == 2)
+        .and_then(|op| op[1].parse::<u64>().ok())
+        .unwrap_or(0)
+        .min(120_000);
     let cfg = Cfg {
+        quiet,
         mode,
         kind: kind.clone(),
         ts: c.header[6] == "1" && kind != "join",
